@@ -452,6 +452,10 @@ func c07() {
 			proto.AppendVarint(nil, 9000, rnd()), proto.AppendVarlen(nil, 9001, rndBytes(10)),
 			proto.AppendFixed32(nil, 9002, uint32(rnd())), proto.AppendFixed64(nil, 9003, rnd()),
 			proto.AppendVarint(nil, 9004, 1<<63|rnd()),
+			// legal field numbers above 2^16 that are congruent to declared ones modulo 2^16 (the package stores field
+			// numbers of declared fields in 16 bits)
+			proto.AppendVarint(nil, 65537, rnd()), proto.AppendVarlen(nil, 65538, rndBytes(3)), proto.AppendFixed32(nil, 131073, uint32(rnd())),
+			proto.AppendFixed64(nil, 65536+3, rnd()), proto.AppendVarint(nil, 1<<28+1, 7), proto.AppendVarlen(nil, 65536*5+2, nil),
 		}
 		var bounds []int
 		rest := b
@@ -520,5 +524,6 @@ func c07() {
 			pScan(f)
 		}
 	}
+	c07Alloc()
 	_ = hex.EncodeToString
 }
